@@ -221,6 +221,16 @@ def r14_3(ctx):
                     bad = f"hashed: pre-configured key is {isc.fields.get('preconfiguredKey')!r}, must be the stored hash"
                 elif not hashed and getattr(isc.fields.get("preconfiguredKey"), "tag", "") != "KeyData(ni.tclk.key)":
                     bad = f"plain: pre-configured key is {isc.fields.get('preconfiguredKey')!r}, must be the TC link key"
+                # writer / reader agreement on the wire: the NCP reports the flags it was given back in its *current* security bitmask,
+                # where load_network_info tests TRUST_CENTER_USES_HASHED_LINK_KEY of EmberCurrentSecurityBitmask (a multi-bit value that
+                # includes the global-link-key bit).  The bits sent must make that test come out as 'hashed' exactly when hashed.
+                if not bad:
+                    cur = repo.cls(NAMED, "EmberCurrentSecurityBitmask").members().get("TRUST_CENTER_USES_HASHED_LINK_KEY")
+                    ctx.anchor(cur is not None, "EmberCurrentSecurityBitmask.TRUST_CENTER_USES_HASHED_LINK_KEY")
+                    reads_hashed = (val & cur.value) == cur.value
+                    if reads_hashed != hashed:
+                        bad = (f"the bitmask sent is 0x{val:04X}; read back through the current-security-state flag 0x{cur.value:04X} it means "
+                               f"hashed={reads_hashed}, but the key supplied is {'the hash' if hashed else 'the plain link key'}")
                 ctx.require(not bad, f"zha_security:{key}", f"{key}: {bad}", func=f, trace=p.trace(8))
 
 
